@@ -384,6 +384,130 @@ func TestVerif_C25(t *testing.T) {
 		})
 		r.Eval(true, "scripted", side, npk, mode)
 	})
+	// (d) the ACK frame writer under tight space: whatever room the packet has left, the
+	// frame it writes must acknowledge only packet numbers that are in the set it was given
+	// (the ranges are delta-encoded, so dropping a range in the middle shifts all later ones).
+	// The bytes are decoded by the harness's own varint walker, not by the package's parser.
+	aw := r.N(20000, 600000)
+	r.CasesParallel("ack-writer-tight-space", 64, 0, func(c *verifrt.Case) {
+		for k := 0; k < aw/64; k++ {
+			rng := c.Rng
+			var seen rangeset[packetNumber]
+			model := map[packetNumber]bool{}
+			base := packetNumber(rng.Int64N(1 << uint(1+rng.IntN(40))))
+			at := base
+			for i, n := 0, 1+rng.IntN(12); i < n; i++ {
+				gap := []int64{1, 1, 2, 3, 62, 63, 64, 65, 100, 16383, 16384, 20000}[rng.IntN(12)]
+				size := []int64{1, 1, 1, 2, 5, 63, 64, 65, 200, 16384}[rng.IntN(10)]
+				at += packetNumber(gap)
+				seen.add(at, at+packetNumber(size))
+				for x := at; x < at+packetNumber(size); x++ {
+					model[x] = true
+				}
+				at += packetNumber(size)
+			}
+			room := rng.IntN(64)
+			if rng.IntN(4) == 0 {
+				room = 64 + rng.IntN(1200)
+			}
+			var w packetWriter
+			w.reset(1500)
+			w.start1RTTPacket(1, 0, []byte{1, 2, 3, 4})
+			w.pktLim = len(w.b) + room
+			startLen := len(w.b)
+			var ecn ecnCounts
+			if rng.IntN(4) == 0 {
+				ecn = ecnCounts{t0: rng.IntN(70000), t1: rng.IntN(70), ce: rng.IntN(3)}
+			}
+			added := w.appendAckFrame(seen, unscaledAckDelay(rng.IntN(1<<uint(rng.IntN(20)))), ecn)
+			b := w.b[startLen:]
+			if !added {
+				if len(b) != 0 {
+					c.Violation("ack-writer-reports-nothing-added-but-wrote", "appendAckFrame returned false but appended %d bytes (room %d)", len(b), room)
+				}
+				r.Event("ack_writer_no_room", 1)
+				continue
+			}
+			if len(b) > room {
+				c.Violation("ack-writer-exceeds-room", "ACK frame of %d bytes written with %d bytes available", len(b), room)
+			}
+			// independent decode (RFC 9000 19.3): type, largest, delay, range count, first range, (gap, len)*
+			pos := 0
+			bad := false
+			vi := func() uint64 {
+				if pos >= len(b) {
+					bad = true
+					return 0
+				}
+				n := 1 << (b[pos] >> 6)
+				if pos+n > len(b) {
+					bad = true
+					return 0
+				}
+				v := uint64(b[pos] & 0x3f)
+				for i := 1; i < n; i++ {
+					v = v<<8 | uint64(b[pos+i])
+				}
+				pos += n
+				return v
+			}
+			typ := vi()
+			largest := int64(vi())
+			vi() // delay
+			count := vi()
+			first := int64(vi())
+			type rg struct{ lo, hi int64 }
+			rs := []rg{{largest - first, largest}}
+			lo := largest - first
+			for i := uint64(0); i < count && !bad; i++ {
+				gap := int64(vi())
+				ln := int64(vi())
+				hi := lo - gap - 2
+				lo = hi - ln
+				rs = append(rs, rg{lo, hi})
+			}
+			if typ == 3 {
+				vi()
+				vi()
+				vi()
+			}
+			if bad || pos != len(b) || (typ != 2 && typ != 3) {
+				c.Violation("ack-writer-frame-malformed", "ACK frame %x (room %d) does not parse as an ACK frame (consumed %d of %d)", b, room, pos, len(b))
+				continue
+			}
+			if packetNumber(largest) != seen.max() {
+				c.Violation("ack-writer-largest-wrong", "ACK frame %x: largest acknowledged %d, largest received %d", b, largest, seen.max())
+			}
+			for _, g := range rs {
+				if g.lo < 0 || g.lo > g.hi {
+					c.Violation("ack-writer-range-malformed", "ACK frame %x (room %d): range [%d,%d]; received %v", b, room, g.lo, g.hi, seen)
+					break
+				}
+				if !model[packetNumber(g.lo)] || !model[packetNumber(g.hi)] || !seen.contains(packetNumber(g.lo)) || (g.hi-g.lo < 70000 && func() bool {
+					for x := g.lo; x <= g.hi; x++ {
+						if !model[packetNumber(x)] {
+							return true
+						}
+					}
+					return false
+				}()) {
+					c.Violation("ack-writer-acknowledges-unreceived-packet", "ACK frame %x written with %d bytes of room acknowledges [%d,%d], not all of which were received; received ranges %v", b, room, g.lo, g.hi, seen)
+					break
+				}
+			}
+			r.Event("ack_writer_frames_checked", 1)
+			if len(rs) < len(seen) {
+				r.Event("ack_writer_frames_truncated_for_room", 1)
+			}
+			if len(rs) >= 3 {
+				r.Event("ack_writer_frames_with_3_or_more_ranges", 1)
+			}
+			r.EvalHash(len(rs) > 1, uint64(len(b))<<32^uint64(room)<<20^uint64(largest))
+		}
+	})
+	r.Require("ack_writer_frames_checked", 5000)
+	r.Require("ack_writer_frames_truncated_for_room", 1000)
+	r.Require("ack_writer_frames_with_3_or_more_ranges", 1000)
 	r.Require("packets_processed", 5000)
 	r.Require("ack_frames_checked", 1000)
 	r.Require("multi_range_acks", 50)
